@@ -924,6 +924,48 @@ def _step(op, st):
             got = _try(key.wif) if k == b"wifd" else _try(key.wif, compressed=comp)
             return got, ref_b58enc(raw + h256(raw)[:4])
         return None, None
+    # ---- entry-point audit: default arguments on long-lived objects, results derived from a source that is used again
+    if k == b"addrd":                              # address() with the network argument OMITTED
+        t, obj = st["spk"][a[0]]
+        return _try(obj.address), ref_address(t, st["h"][a[0]], 0)
+    if k == b"p2sh":                               # SegwitPubKey.p2sh_address (redeem_script() shares the command list)
+        t, obj = st["spk"][a[0]]
+        inner = ref_ser(spk_commands(t, st["h"][a[0]]))
+        if t not in (2, 3):
+            return None, None
+        if a[1] < 0:
+            return _try(obj.p2sh_address), ref_address(1, h160(inner), 0)
+        return _try(obj.p2sh_address, NETS[a[1]]), ref_address(1, h160(inner), a[1])
+    if k == b"scr":                                # a long-lived RedeemScript (0) / WitnessScript (1)
+        slot, kind, cmds = a
+        st["scr"][slot] = (kind, [script.RedeemScript, script.WitnessScript][kind](list(cmds)))
+        st["cmds"][slot] = list(cmds)
+        return None, None
+    if k == b"sedit":                              # its commands replaced (0) / one element overwritten in place (1)
+        slot, how, cmds = a
+        kind, obj = st["scr"][slot]
+        if how == 0 or len(cmds) != len(obj.commands):
+            obj.commands = list(cmds)
+        else:
+            for i, c in enumerate(cmds):
+                obj.commands[i] = c
+        st["cmds"][slot] = list(cmds)
+        return None, None
+    if k == b"saddr":                              # which: 0 address, 1 p2sh_address (witness only); net -1: omitted
+        slot, which, net = a
+        kind, obj = st["scr"][slot]
+        raw = ref_ser(st["cmds"][slot])
+        if kind == 0:
+            tt, hh = 1, h160(raw)
+            f = obj.address
+        elif which == 0:
+            tt, hh = 3, hashlib.sha256(raw).digest()
+            f = obj.address
+        else:
+            tt, hh = 1, h160(b"\x00\x20" + hashlib.sha256(raw).digest())
+            f = obj.p2sh_address
+        want = ref_address(tt, hh, max(net, 0))
+        return (_try(f) if net < 0 else _try(f, NETS[net])), (ERR if want is None else want)
     if k == b"parse":
         secret, mainnet, comp = a
         raw = (b"\x80" if mainnet else b"\xef") + secret.to_bytes(32, "big") + (b"\x01" if comp else b"")
@@ -944,7 +986,7 @@ def p_history(ops):
     """a sequence of calls on the same module functions / the same script and key objects: every result equals
     the stateless reference for the CURRENT arguments and fields"""
     from vp.sexp import canon
-    st = {"spk": {}, "key": {}, "h": {}}
+    st = {"spk": {}, "key": {}, "h": {}, "scr": {}, "cmds": {}}
     for i, op in enumerate(ops):
         got, want = _step(op, st)
         if got is ERR and want is ERR:
@@ -1167,7 +1209,239 @@ def p_bc32_foreign(data, forged):
     return None if got is None else f"bc32decode accepts {s!r}, which has a character outside the alphabet: {got!r}"
 
 
-PROPS = {"decode_encode": p_decode_encode, "parsers_only_addresses": p_parsers_only_addresses,
+# ---------------------------------------------------------------- entry-point audit
+# Public entry points of the anchored files that reach the codecs by ANOTHER route than the functions above
+# (S256Point.address / p2wpkh_address / p2sh_p2wpkh_address / p2tr_address, RedeemScript.create_p2sh_multisig with
+# expected_addr, RedeemScript.convert / WitnessScript.convert, Tx.find_utxos), every DEFAULT argument of the address /
+# WIF functions (network="mainnet", compressed=True, expected_addr_network="mainnet", expected_addr=None), called after
+# the same object was used with other arguments, and texts of unusual character classes.  Expectations come from the
+# reference encoders of this module only.
+
+FP = 2 ** 256 - 2 ** 32 - 977
+
+
+def ref_pt(i, parity):
+    """(x, y) of +-G, +-2G, +-3G: y is the square root of x^3 + 7 with the wanted parity"""
+    x = CURVE_X[i % 3]
+    y = pow((pow(x, 3, FP) + 7) % FP, (FP + 1) // 4, FP)
+    return x, (y if y % 2 == parity else FP - y)
+
+
+def _checks(checks):
+    for name, f, want in checks:
+        got = _try(f)
+        if want is None:
+            if got is not ERR:
+                return f"{name} = {_show(got)} for a network it must refuse with ValueError/RuntimeError"
+        elif got is ERR or got != want:
+            return f"{name} = {_show(got)}, reference {want!r}"
+    return None
+
+
+def p_point_addresses(i, parity, net, tr):
+    """the address helpers of a public key: each equals the reference address of the reference hash of the reference
+    SEC encoding, for the network given by keyword / by position / omitted (= mainnet), in this order on ONE object"""
+    x, y = ref_pt(i, parity)
+    pt = pecc.S256Point(x, y)
+    xb = x.to_bytes(32, "big")
+    hc = h160(bytes([2 + parity]) + xb)
+    hu = h160(b"\x04" + xb + y.to_bytes(32, "big"))
+    nested = h160(b"\x00\x14" + hc)
+    name = NETS[net]
+    checks = [("address(compressed=True, network=%r)" % name, lambda: pt.address(compressed=True, network=name), ref_address(0, hc, net)),
+              ("address(compressed=False, network=%r)" % name, lambda: pt.address(compressed=False, network=name), ref_address(0, hu, net)),
+              ("address(False, %r)" % name, lambda: pt.address(False, name), ref_address(0, hu, net)),
+              ("address(True, %r)" % name, lambda: pt.address(True, name), ref_address(0, hc, net)),
+              ("address(network=%r)" % name, lambda: pt.address(network=name), ref_address(0, hc, net)),
+              ("address()", lambda: pt.address(), ref_address(0, hc, 0)),
+              ("address(False)", lambda: pt.address(False), ref_address(0, hu, 0)),
+              ("p2wpkh_address(%r)" % name, lambda: pt.p2wpkh_address(name), ref_address(2, hc, net)),
+              ("p2wpkh_address()", lambda: pt.p2wpkh_address(), ref_address(2, hc, 0)),
+              ("p2wpkh_address(network=%r)" % name, lambda: pt.p2wpkh_address(network=name), ref_address(2, hc, net)),
+              ("p2sh_p2wpkh_address(%r)" % name, lambda: pt.p2sh_p2wpkh_address(name), ref_address(1, nested, net)),
+              ("p2sh_p2wpkh_address()", lambda: pt.p2sh_p2wpkh_address(), ref_address(1, nested, 0)),
+              ("address(True, %r) again" % name, lambda: pt.address(True, name), ref_address(0, hc, net))]
+    if tr:
+        # the tweaked output key is C11's; here: p2tr_address is the bech32m address of the program of p2tr_script
+        # with the same arguments, on the network asked for / on mainnet when omitted
+        mr = h256(xb)
+        for label, args in (("", ()), ("merkle_root, ", (mr,))):
+            prog = pt.p2tr_script(*args).commands[1]
+            if not (isinstance(prog, bytes) and len(prog) == 32):
+                return f"p2tr_script({label}).commands = {pt.p2tr_script(*args).commands!r}"
+            checks.append(("p2tr_address(%snetwork=%r)" % (label, name), (lambda a=args: pt.p2tr_address(*a, network=name)),
+                           ref_address(4, prog, net)))
+            checks.append(("p2tr_address(%s)" % label, (lambda a=args: pt.p2tr_address(*a)), ref_address(4, prog, 0)))
+        prog = pt.p2tr_script(mr).commands[1]
+        checks.append(("p2tr_address(merkle_root, None, %r)" % name, lambda: pt.p2tr_address(mr, None, name), ref_address(4, prog, net)))
+    return _checks(checks)
+
+
+def p_defaults(t, h, net, cmds):
+    """every omitted network argument means mainnet - also right after the same object / function was used with another
+    network - and an omitted compressed flag means compressed"""
+    cmds = list(cmds)
+    name = NETS[net]
+    obj = SPK_CLS[t](h)
+    raw = ref_ser(cmds)
+    s256 = hashlib.sha256(raw).digest()
+    rs, ws = script.RedeemScript(list(cmds)), script.WitnessScript(list(cmds))
+    checks = [("%s.address(%r)" % (SPK_CLS[t].__name__, name), lambda: obj.address(name), ref_address(t, h, net)),
+              ("%s.address()" % SPK_CLS[t].__name__, lambda: obj.address(), ref_address(t, h, 0)),
+              ("%s.address(network=%r)" % (SPK_CLS[t].__name__, name), lambda: obj.address(network=name), ref_address(t, h, net)),
+              ("RedeemScript.address(%r)" % name, lambda: rs.address(name), ref_address(1, h160(raw), net)),
+              ("RedeemScript.address()", lambda: rs.address(), ref_address(1, h160(raw), 0)),
+              ("WitnessScript.address(%r)" % name, lambda: ws.address(name), ref_address(3, s256, net)),
+              ("WitnessScript.address()", lambda: ws.address(), ref_address(3, s256, 0)),
+              ("WitnessScript.p2sh_address(%r)" % name, lambda: ws.p2sh_address(name), ref_address(1, h160(b"\x00\x20" + s256), net)),
+              ("WitnessScript.p2sh_address()", lambda: ws.p2sh_address(), ref_address(1, h160(b"\x00\x20" + s256), 0)),
+              ("WitnessScript.address(network=%r)" % name, lambda: ws.address(network=name), ref_address(3, s256, net))]
+    if t >= 2:
+        sb = ref_ser(spk_commands(t, h))
+        checks += [("encode_bech32_checksum(s, %r)" % name, lambda: bech32.encode_bech32_checksum(sb, name), ref_address(t, h, net)),
+                   ("encode_bech32_checksum(s)", lambda: bech32.encode_bech32_checksum(sb), ref_address(t, h, 0)),
+                   ("encode_bech32_checksum(s, network=%r)" % name, lambda: bech32.encode_bech32_checksum(sb, network=name),
+                    ref_address(t, h, net))]
+    if t in (2, 3):
+        inner = h160(ref_ser(spk_commands(t, h)))
+        checks += [("p2sh_address(%r)" % name, lambda: obj.p2sh_address(name), ref_address(1, inner, net)),
+                   ("p2sh_address()", lambda: obj.p2sh_address(), ref_address(1, inner, 0)),
+                   ("address(%r) after p2sh_address" % name, lambda: obj.address(name), ref_address(t, h, net))]
+    return _checks(checks)
+
+
+def p_key_defaults(secret, net):
+    """PrivateKey(secret): network mainnet, compressed; wif() with the flag omitted is the compressed form; a key made
+    for another network right before does not change that"""
+    other = pecc.PrivateKey(secret, NETS[net], False)            # positional: (secret, network, compressed)
+    key = pecc.PrivateKey(secret)
+    if (key.network, key.compressed) != ("mainnet", True) or (other.network, other.compressed) != (NETS[net], False):
+        return f"PrivateKey(secret) has network {key.network!r}, compressed {key.compressed!r}; PrivateKey(secret, {NETS[net]!r}, False) has {other.network!r}, {other.compressed!r}"
+    return _checks([("PrivateKey(s, %r, False).wif()" % NETS[net], lambda: other.wif(), ref_wif_text(secret, net == 0, True)),
+                    ("PrivateKey(s).wif()", lambda: key.wif(), ref_wif_text(secret, True, True)),
+                    ("PrivateKey(s).wif(False)", lambda: key.wif(False), ref_wif_text(secret, True, False)),
+                    ("PrivateKey(s, %r, False).wif(compressed=False)" % NETS[net], lambda: other.wif(compressed=False),
+                     ref_wif_text(secret, net == 0, False)),
+                    ("PrivateKey(s).wif() again", lambda: key.wif(), ref_wif_text(secret, True, True))])
+
+
+def p_multisig_expected(m, keys, sort, net, variant):
+    """RedeemScript.create_p2sh_multisig(..., expected_addr, expected_addr_network): succeeds exactly when expected_addr
+    is the reference P2SH address of the reference script on that network (mainnet when the network is omitted)"""
+    keys = list(keys)
+    ordered = sorted(keys) if sort else keys
+    cmds = [0x50 + m] + ordered + [0x50 + len(keys), 0xAE]
+    raw = ref_ser(cmds)
+    addr = ref_address(1, h160(raw), net)
+    kw = {"expected_addr": addr, "expected_addr_network": NETS[net]}
+    ok = True
+    if variant == 1:                                   # network omitted: compared with the MAINNET address
+        del kw["expected_addr_network"]
+        ok = net == 0
+    elif variant == 2:                                 # the address of the keys in another order
+        other = [0x50 + m] + ordered[::-1] + [0x50 + len(keys), 0xAE]
+        kw["expected_addr"] = ref_address(1, h160(ref_ser(other)), net)
+        ok = other == cmds
+    elif variant == 3:                                 # one character of the address replaced
+        kw["expected_addr"] = _sub(addr, False, m + len(raw), raw[-3])
+        ok = False
+    elif variant == 4:                                 # the right script on the wrong network class
+        kw["expected_addr"] = ref_address(1, h160(raw), 1 if net == 0 else 0)
+        ok = False
+    elif variant == 5:                                 # the P2WSH / P2SH-P2WSH address of the same script
+        s256 = hashlib.sha256(raw).digest()
+        kw["expected_addr"] = ref_address(3, s256, net) if m % 2 else ref_address(1, h160(b"\x00\x20" + s256), net)
+        ok = False
+    elif variant == 6:                                 # nothing expected
+        kw = {}
+    elif variant == 7:                                 # network given, address omitted: nothing to compare
+        kw = {"expected_addr_network": NETS[net]}
+    try:
+        rs = script.RedeemScript.create_p2sh_multisig(m, [k.hex() for k in keys], sort_keys=bool(sort), **kw)
+    except ValueError:
+        return None if not ok else f"create_p2sh_multisig refuses the reference address {kw.get('expected_addr')!r} ({kw!r})"
+    except Exception as e:  # noqa
+        if _is_timeout(e):
+            raise
+        return f"create_p2sh_multisig raises {type(e).__name__} ({kw!r})"
+    if not ok:
+        return f"create_p2sh_multisig accepts expected_addr {kw.get('expected_addr')!r} ({kw!r}); the script's address is {addr!r}"
+    if rs.commands != cmds or _try(rs.address, NETS[net]) != addr:
+        return f"create_p2sh_multisig built {rs.commands!r} with address {_try(rs.address, NETS[net])!r}, reference {addr!r}"
+    return None
+
+
+def p_script_convert(cmds, net):
+    """RedeemScript.convert(raw) / WitnessScript.convert(raw): the addresses are those of the hash of raw"""
+    raw = ref_ser(list(cmds))
+    s256 = hashlib.sha256(raw).digest()
+    name = NETS[net]
+    return _checks([("RedeemScript.convert(raw).address(%r)" % name,
+                     lambda: _quiet(script.RedeemScript.convert, raw).address(name), ref_address(1, h160(raw), net)),
+                    ("WitnessScript.convert(raw).address(%r)" % name,
+                     lambda: _quiet(script.WitnessScript.convert, raw).address(name), ref_address(3, s256, net)),
+                    ("WitnessScript.convert(raw).p2sh_address(%r)" % name,
+                     lambda: _quiet(script.WitnessScript.convert, raw).p2sh_address(name),
+                     ref_address(1, h160(b"\x00\x20" + s256), net)),
+                    ("RedeemScript.convert(raw).address()", lambda: _quiet(script.RedeemScript.convert, raw).address(),
+                     ref_address(1, h160(raw), 0))])
+
+
+def p_find_utxos(outs, net, pick, corrupt):
+    """Tx.find_utxos(address) (the caller of decode_base58): exactly the outputs paying to the address's hash, each with
+    ITS index and ITS amount; a text with a wrong checksum is rejected.  outs: [template 0/1, hash160, amount]"""
+    outs = [list(o) for o in outs]
+    tx_outs = [tx.TxOut(a, SPK_CLS[t](h)) for t, h, a in outs]
+    obj = tx.Tx(1, [], tx_outs, 0, network=NETS[net])
+    ser = (1).to_bytes(4, "little") + b"\x00" + bytes([len(outs)])
+    for t, h, a in outs:
+        sp = ref_ser(spk_commands(t, h))
+        ser += a.to_bytes(8, "little") + bytes([len(sp)]) + sp
+    ser += bytes(4)
+    txid = h256(ser)[::-1]
+    t, h, _ = outs[pick % len(outs)]
+    addr = ref_address(t, h, net)
+    if corrupt:
+        addr = _sub(addr, False, corrupt, pick)
+    k, got = _outcome(obj.find_utxos, addr)
+    if corrupt:
+        return None if k == "rejected" else f"find_utxos({addr!r}) (wrong checksum): {got!r}"
+    if k != "value":
+        return f"find_utxos({addr!r}) {got if k == 'crash' else 'rejects the valid address'}"
+    want = [(txid, i, a) for i, (t2, h2, a) in enumerate(outs) if (t2, h2) == (t, h)]
+    if [tuple(x) for x in got] != want:
+        return f"find_utxos({addr!r}) = {got!r}, reference {want!r}"
+    return None
+
+
+def p_charclass(sb, cls):
+    """a VALID text of an unusual character class (data part / whole text made of digits only, of letters only, of one
+    case): the class is what it is said to be, the independent decoders accept it, and every decoder of the property
+    agrees with them (text_iff)"""
+    s = T(sb)
+    data = s[s.index("1") + 1:] if cls.startswith(b"seg") else s
+    body = data[1:] if cls in (b"seg-digits-after-version",) else data
+    ok = {b"seg-digits": body.isdigit(), b"seg-digits-after-version": body.isdigit(), b"seg-letters": body.isalpha(),
+          b"b58-letters": body.isalpha()}[cls]
+    if not ok:
+        return f"harness: {s!r} is not of class {cls.decode()}"
+    if cls.startswith(b"seg"):
+        if ref_segdec(s) is None:
+            return f"harness: {s!r} is not a valid segwit text"
+    else:
+        raw = ref_b58dec(s)
+        if raw is None or len(raw) < 4 or h256(raw[:-4])[:4] != raw[-4:]:
+            return f"harness: {s!r} is not a valid Base58Check text"
+    d = p_text_iff(sb)
+    if d:
+        return d
+    return p_decode_encode(sb)
+
+
+PROPS = {"point_addresses": p_point_addresses, "defaults": p_defaults, "key_defaults": p_key_defaults,
+         "multisig_expected": p_multisig_expected, "script_convert": p_script_convert, "find_utxos": p_find_utxos,
+         "charclass": p_charclass,
+         "decode_encode": p_decode_encode, "parsers_only_addresses": p_parsers_only_addresses,
          "foreign_rejected": p_foreign_rejected, "xkey_valid": p_xkey_valid, "bc32_foreign": p_bc32_foreign,
          "wif_only_wif": p_wif_only_wif, "script_entry_points": p_script_entry_points,
          "spk_bytes_rt": p_spk_bytes_rt,
@@ -1286,7 +1560,11 @@ def fam_spk(ctx):
         i = r.randrange(len(slots))
         t = slots[i]
         k = r.random()
-        if k < 0.55:
+        if k < 0.08:
+            ops.append([b"addrd", i])                                  # network argument omitted
+        elif k < 0.16 and t in (2, 3):
+            ops.append([b"p2sh", i, r.choice([-1, 0, 1, 2, 3, 4])])    # derived redeem script; the source is used again later
+        elif k < 0.55:
             ops.append([b"addr", i, r.choice([0, 0, 1, 1, 2, 3, 4])])
         elif k < 0.65:
             ops.append([b"ser", i])
@@ -1371,7 +1649,34 @@ def fam_prim(ctx):
     return _mix(r, r.sample(ops, 50), 0.25)
 
 
-FAMILIES = [("b58", fam_b58), ("segwit", fam_seg), ("script-objects", fam_spk), ("address-parsers", fam_addr),
+def fam_scr(ctx):
+    """long-lived RedeemScript / WitnessScript objects: address() / p2sh_address() for every network and with the
+    network omitted, in every order, with the commands replaced or overwritten in place between the calls"""
+    r = ctx.rng
+    cur = [random_script(ctx), None, random_script(ctx)]
+    cur[1] = list(cur[0])
+    ops = [[b"scr", 0, 0, list(cur[0])], [b"scr", 1, 1, list(cur[1])], [b"scr", 2, r.randrange(2), list(cur[2])]]
+    for _ in range(r.randrange(15, 30)):
+        i = r.randrange(3)
+        if r.random() < 0.65:
+            ops.append([b"saddr", i, r.randrange(2), r.choice([-1, -1, 0, 0, 1, 2, 3, 4])])
+            continue
+        new = list(cur[i])
+        if new and r.random() < 0.7:
+            j = r.randrange(len(new))
+            new[j] = ctx.rbytes(len(new[j])) if isinstance(new[j], bytes) else r.choice(OPS)
+            how = r.randrange(2)
+        else:
+            new, how = random_script(ctx), 0
+        cur[i] = new
+        ops.append([b"sedit", i, how, list(new)])
+    for i in range(3):
+        for net in r.sample([-1, 0, 1, 3], 4):
+            ops.append([b"saddr", i, r.randrange(2), net])
+    return ops
+
+
+FAMILIES = [("script-hash-objects", fam_scr), ("b58", fam_b58), ("segwit", fam_seg), ("script-objects", fam_spk), ("address-parsers", fam_addr),
             ("private-key-objects", fam_key), ("checksum-primitives", fam_prim)]
 
 
@@ -1390,7 +1695,8 @@ def _interleave(r, parts):
     """merge the sessions keeping each one's own order (object creation stays before use); slots are made disjoint"""
     for pi, p in enumerate(parts):
         for op in p:
-            if op[0] in (b"spk", b"addr", b"ser", b"edit", b"editc", b"key", b"wif", b"wifd", b"knet", b"ksec", b"kcomp"):
+            if op[0] in (b"spk", b"addr", b"ser", b"edit", b"editc", b"key", b"wif", b"wifd", b"knet", b"ksec", b"kcomp",
+                         b"addrd", b"p2sh", b"scr", b"sedit", b"saddr"):
                 op[1] += 10 * pi
     out = []
     parts = [list(p) for p in parts if p]
@@ -1860,6 +2166,112 @@ def lenient_digit_cases(ctx):
                 yield ("prop", "bc32_foreign", [data, t.encode("latin-1")])
 
 
+DIGIT_SYMS = [B32.index(c) for c in B32 if c.isdigit()]
+LETTER_SYMS = [B32.index(c) for c in B32 if c.isalpha()]
+
+
+def grind_seg(r, hrp, ver, nbytes, syms, tries=60000):
+    """a VALID segwit text (reference encoder) whose program and checksum symbols all have values in syms; None when
+    the padding rule leaves no such last symbol or no checksum of that class was found"""
+    n = (8 * nbytes + 4) // 5
+    pad = 5 * n - 8 * nbytes
+    last = [v for v in syms if v % (1 << pad) == 0]
+    if not last:
+        return None
+    const = 1 if ver == 0 else 0x2bc830a3
+    pre = ref_hrp(hrp) + [ver]
+    ok = set(syms)
+    for _ in range(tries):
+        body = [r.choice(syms) for _ in range(n - 1)] + [r.choice(last)]
+        pm = ref_polymod(pre + body + [0] * 6) ^ const
+        chk = [(pm >> 5 * (5 - i)) & 31 for i in range(6)]
+        if all(c in ok for c in chk):
+            return hrp + "1" + "".join(B32[d] for d in [ver] + body + chk)
+    return None
+
+
+def grind_b58(make, pred, tries=40000):
+    for _ in range(tries):
+        s = make()
+        if pred(s):
+            return s
+    return None
+
+
+def audit_cases(ctx):
+    """entry-point audit (kinds a, b, d, f, g of the blind-spot list; e is lenient_digit_cases, c is
+    rejecting_branch_cases / noncanonical_texts)"""
+    r = ctx.rng
+    # ---- (a)(b) the address helpers of a public key: +-G, +-2G, +-3G x 5 networks; taproot on one point per network
+    for i in range(3):
+        for parity in (0, 1):
+            for net in range(5):
+                ctx.label("audit/public-key-address-helpers")
+                yield ("prop", "point_addresses", [i, parity, net, int((2 * i + parity) % 5 == net)])
+    # ---- (b) omitted arguments, right after the same object was used with another network
+    for t in range(5):
+        for net in (1, 2, 3, 4, 0):
+            ctx.label("audit/default-network")
+            h = ctx.rbytes(20 if t < 3 else 32)
+            yield ("prop", "defaults", [t, h, net, random_script(ctx)])
+    for secret, net in ((1, 1), (N - 1, 3), (r.randrange(1, N), 2), (r.getrandbits(200) + 1, 0)):
+        ctx.label("audit/default-key-arguments")
+        yield ("prop", "key_defaults", [secret, net])
+    # ---- (a)(b)(c) create_p2sh_multisig with an expected address: 8 variants x 4 networks
+    for variant in range(8):
+        for net in range(4):
+            n = r.randrange(1, 4)
+            keys = [bytes([r.choice([2, 3])]) + ctx.rbytes(32) for _ in range(n)]
+            if variant == 2 and n > 1 and keys == sorted(keys):
+                keys = keys[::-1]
+            ctx.label("audit/multisig-expected-address/variant-%d" % variant)
+            yield ("prop", "multisig_expected", [r.randrange(1, n + 1), keys, r.randrange(2), net, variant])
+    # ---- (a) convert(raw) -> address
+    for _ in range(ctx.n(12, 200)):
+        ctx.label("audit/script-convert")
+        yield ("prop", "script_convert", [random_script(ctx), r.randrange(5)])
+    # ---- (a)(f) Tx.find_utxos: outputs that DIFFER in hash, template and amount; the same script twice
+    for k in range(ctx.n(12, 200)):
+        n = r.choice([1, 2, 3, 5])
+        outs = [[r.randrange(2), ctx.rbytes(20), r.randrange(1, 2 ** 40)] for _ in range(n)]
+        if k % 3 == 0:
+            d = list(r.choice(outs))
+            outs.insert(r.randrange(len(outs) + 1), [d[0], d[1], r.randrange(1, 2 ** 40)])
+        if k % 4 == 1:
+            outs[0][1] = bytes(20)
+        ctx.label("audit/find-utxos")
+        yield ("prop", "find_utxos", [outs, r.randrange(4), r.randrange(len(outs)), 0])
+        yield ("prop", "find_utxos", [outs, r.randrange(4), r.randrange(len(outs)), r.randrange(1, 100)])
+    # ---- (d) character classes that random payloads do not produce (checksums ground with the reference encoder)
+    made = []
+    for hrp in ("bc", "tb", "bcrt"):
+        for ver in (5, 7, 10, 15):                      # version symbols 9 8 2 0: the whole data part is digits
+            made.append((b"seg-digits", grind_seg(r, hrp, ver, r.choice([3, 5, 8, 10]), DIGIT_SYMS)))
+        made.append((b"seg-digits-after-version", grind_seg(r, hrp, 0, 20, DIGIT_SYMS)))      # P2WPKH: q + digits
+        made.append((b"seg-digits-after-version", grind_seg(r, hrp, 1, r.choice([5, 10, 40]), DIGIT_SYMS)))
+        for ver, ln in ((0, 20), (0, 32), (1, 32), (16, 40), (2, 2)):
+            made.append((b"seg-letters", grind_seg(r, hrp, ver, ln, LETTER_SYMS)))
+    made.append((b"b58-letters", grind_b58(lambda: ref_address(0, ctx.rbytes(20), 1), str.isalpha)))
+    made.append((b"b58-letters", grind_b58(lambda: ref_address(0, ctx.rbytes(20), 3), str.isalpha)))
+    made.append((b"b58-letters", grind_b58(lambda: ref_wif_text(r.randrange(1, N), True, True), str.isalpha)))
+    made.append((b"b58-letters", grind_b58(lambda: ref_wif_text(r.randrange(1, N), False, True), str.isalpha)))
+    for n in (0, 1, 5, 21):
+        made.append((b"b58-letters", grind_b58(lambda: T(b58c(ctx.rbytes(n))), str.isalpha, 3000)))
+    for cls, s in made:
+        if s is None:
+            ctx.label("audit/character-class/no-text-built")
+            continue
+        ctx.label("audit/character-class/" + cls.decode())
+        b = s.encode()
+        yield ("prop", "charclass", [b, cls])
+        if cls.startswith(b"seg"):
+            for fn in ("decode_bech32", "address_to_script_pubkey", "to_address"):
+                yield ("corr", fn, [b])
+        else:
+            for fn in ("raw_decode_base58", "decode_base58", "address_to_script_pubkey", "to_address", "wif_parse"):
+                yield ("corr", fn, [b])
+
+
 def generate(ctx):
     r = ctx.rng
     # ---------------- base58
@@ -2121,3 +2533,5 @@ def generate(ctx):
     yield from histories(ctx)
     # ---------------- characters outside the alphabet, compensated under every lenient reading of them
     yield from lenient_digit_cases(ctx)
+    # ---------------- entry-point audit: other routes to the codecs, omitted arguments, unusual character classes
+    yield from audit_cases(ctx)
